@@ -14,6 +14,12 @@
                     cursor, with that clause as reason; a satisfied other watch skips the clause
   trail             try_add_decision records value+level and pushes the decision only for unassigned variables;
                     a different value is an error
+
+Added after the second and third seeding rounds:
+  watch-list / restart / assertions / clause-shape / antecedents / undo-total / new-solvables
+                rules of C01, C03, C05, C09, C14 whose violation also changes the verdict, run here unchanged (see section 7)
+  implied-decision-at-the-current-level  in propagate / decide_assertions / decide_learned the level passed to try_add_decision
+                is the routine's `level` parameter unmodified
 """
 from common import *
 import q, enc, c01
